@@ -251,8 +251,18 @@ def gen(rng, index, tier):
         cfg['files'] = [f for f in first['files'] if f[1] == 'stl'] + [f for f in cfg['files'] if f[1] != 'stl']
         cfg['debug'] = True
         ops.insert(rng.randrange(len(ops) + 1), {'kind': 'assemble', 'cfg': first, 'depth': None})
+    deep_probe = None
+    if rng.random() < 0.06:
+        # an earlier call with a RAISED macro-recursion depth, and a probe whose expression nesting exceeds python's
+        # default recursion limit (it must fail exactly as in a fresh process)
+        ops.insert(rng.randrange(len(ops) + 1), {'kind': 'assemble', 'cfg': make_cfg(rng, pick_ok(rng), corpus.OK),
+                                                 'depth': rng.choice([6000, 8000])})
+        deep_probe = make_cfg(rng, 'f_deep_expr', corpus.FAIL, w=rng.choice([32, 64]))
     if any(o.get('cfg', {}).get('program') == 'n_big_labels' for o in ops):
         cfg['debug'] = True
+    if deep_probe is not None:
+        ops.append({'kind': 'fail', 'cfg': deep_probe, 'depth': None, 'probe': True})
+        return {'ops': ops, 'seed': rng.getrandbits(32)}
     ops.append({'kind': 'assemble', 'cfg': cfg, 'depth': rng.choice([None, None, 900, 60]), 'probe': True})
     return {'ops': ops, 'seed': rng.getrandbits(32)}
 
